@@ -78,12 +78,12 @@ def specs(tier):
                  depth=4, statuses_q=['SUCCESSFUL'], manual=['commit'],
                  init=[['open', PR1, 'development/4.3'], ['eval_pr', 1]]),
         ]
-    out = [spec('skipq-D3-stacked', 'D3', None, None, skip=True, depth=8,
+    out = [spec('skipq-D3-stacked', 'D3', None, None, skip=True, depth=7,
                 statuses_q=['SUCCESSFUL', 'FAILED'],
                 init=[['open', PR1, 'development/4.3'],
                       ['open', PR2, 'development/4.3', AUTHOR, None, None,
                        PR1]]),
-           spec('q-D3-stacked', 'D3', None, None, depth=8,
+           spec('q-D3-stacked', 'D3', None, None, depth=7,
                 statuses_q=['SUCCESSFUL', 'FAILED'],
                 init=[['open', PR1, 'development/4.3'],
                       ['open', PR2, 'development/5.1', AUTHOR, None, None,
@@ -104,14 +104,15 @@ def specs(tier):
         for skip in (False, True):
             name = '%s-%s-%s' % ('skipq' if skip else 'q', layout,
                                  'same' if d1 == d2 else 'diff')
-            out.append(spec(name, layout, d1, d2, skip=skip, depth=9,
+            out.append(spec(name, layout, d1, d2, skip=skip,
+                            depth=7 if layout in ('D2', 'S3') else 6,
                             statuses_q=['SUCCESSFUL', 'FAILED', 'INPROGRESS',
                                         'STOPPED', 'NOTSTARTED'],
                             stale=True, pushes=1 if skip else 0,
                             admin=[['force_merge']]))
         out.append(spec('skipq-%s-%s-bypass' % (
             layout, 'same' if d1 == d2 else 'diff'), layout, d1, d2, skip=True,
-                        depth=8, comments=bypass, stale=True))
+                        depth=6, comments=bypass, stale=True))
     return out
 
 
